@@ -113,12 +113,14 @@ def refusal(kind):
     return lambda pkg: run_obligation(pkg, fn)
 
 
-def graph_roundtrip(cycles):
+def graph_roundtrip(cycles, se2_param_id=None):
     def fn(it):
         it.vfs = {}
         # the last two vertices are not referred to by any edge
         vs = [build_vertex(it, c, "v%d" % k) for k, c in enumerate(["PoseSE2", "PoseR2", "PoseSE3", "PoseR3", "PoseSE2", "PoseSE3", "PoseR2", "PoseSE3"])]
-        p2 = build_param(it, "G2OParameterSE2Offset", "p2")
+        # (se2_param_id=0: the file defines a 2-D offset parameter with the very id the 2-D landmark edges carry; those edges
+        #  were written without an offset -- identity -- and must come back with the identity)
+        p2 = build_param(it, "G2OParameterSE2Offset", "p2", pid=None if se2_param_id is None else Poly.const(se2_param_id))
         p3 = build_param(it, "G2OParameterSE3Offset", "p3")
         ident = it.call_classmethod(ClassRef("PoseSE2"), "identity", [])
         edges = [build_odometry(it, "PoseSE2", "e0", vs[0], vs[4]),
@@ -152,6 +154,37 @@ def graph_roundtrip(cycles):
                 raise ObFail("parameter %s is not read back under its key" % p.cls)
             same_param(it, q, p, "parameter %s after export/import" % p.cls)
         return dict(cycles=cycles, lines=len(it.vfs["cycle0.g2o"].text_lines()), vertices=len(vs), edges=len(edges))
+    return lambda pkg: run_obligation(pkg, fn, max_paths=128)
+
+
+def graph_without_parameter_table():
+    """A graph assembled in memory whose 3-D landmark edge names an offset parameter that the graph's parameter table does not
+    hold: exporting and re-importing it must either be refused (an exception on either side) or be lossless -- never succeed
+    with the edge missing or altered."""
+    def fn(it):
+        it.vfs = {}
+        vs = [build_vertex(it, c, "v%d" % k) for k, c in enumerate(["PoseSE3", "PoseR3", "PoseSE3"])]
+        off = sym_pose("PoseSE3", "off", unit=True)
+        oid = Poly.var("pid_missing")
+        it.int_tokens.add(oid.key())
+        edges = [build_odometry(it, "PoseSE3", "e0", vs[0], vs[2]), build_landmark(it, "PoseSE3", "e1", vs[0], vs[1], off, oid),
+                 build_landmark(it, "PoseSE3", "e2", vs[2], vs[1], off, oid)]
+        g = it.construct("Graph", [list(edges), list(vs)])
+        try:
+            it.call_method(g, "to_g2o", ["m.g2o"])
+        except PathRaise as ex:
+            return dict(refused_on="export", exc=ex.exc)
+        try:
+            cur = it.call_classmethod(ClassRef("Graph"), "from_g2o", ["m.g2o"])
+        except PathRaise as ex:
+            return dict(refused_on="import", exc=ex.exc)
+        e2 = ga(cur, "_edges", None)
+        if not isinstance(e2, list) or len(e2) != len(edges):
+            raise ObFail("a graph whose landmark edges refer to an offset parameter missing from its table is exported and re-imported "
+                         "without error, but %s of its %d edges come back" % (len(e2) if isinstance(e2, list) else e2, len(edges)))
+        for k, (a, b) in enumerate(zip(e2, edges)):
+            same_edge(it, a, b, "edge #%d after export/import without a parameter table" % k)
+        return dict(refused_on=None)
     return lambda pkg: run_obligation(pkg, fn, max_paths=128)
 
 
@@ -189,5 +222,7 @@ def run(run_, pkg, tier):
     gt = pkg.method("Graph", "to_g2o")
     for c in ((1, 2) if tier == "quick" else (1, 2, 3)):
         add("C13-roundtrip/Graph/cycles=%d" % c, "C13-L3-graph-order", graph_roundtrip(c), gt)
+    add("C13-roundtrip/Graph/se2-offset-parameter-with-id-0", "C13-L3-graph-order", graph_roundtrip(1, se2_param_id=0), gt)
+    add("C13-refuse/Graph/landmark-edges-without-parameter-table", "C13-L4-refuse-rather-than-alter", graph_without_parameter_table(), gt)
     record(run_, tasks, run_tasks(pkg, tasks))
     run_.floor("C13 obligations", len(tasks) if run_.only is None else 17, 17)
